@@ -1807,6 +1807,17 @@ impl ElementMut for XmlElement {
         Ok(attr.map(XmlAttr::from))
     }
 
+    fn remove_attribute_node(&self, old_attr: XmlAttr) -> error::Result<XmlAttr> {
+        // the node itself has to be an attribute of this element, not just one of that name
+        match self.get_attribute_node(old_attr.name().as_str()) {
+            Some(attr) if Rc::ptr_eq(&attr.attribute, &old_attr.attribute) => {
+                self.remove_attribute(old_attr.name().as_str())?;
+                Ok(attr)
+            }
+            _ => Err(error::DomException::NotFoundErr)?,
+        }
+    }
+
     fn normalize(&self) {
         todo!()
     }
